@@ -347,7 +347,15 @@ pub fn args_for(rng: &mut Rng, kind: usize, t: Tup, other: Tup) -> Vec<i64> {
     "LW.from_ym" => vec![t.y, t.m, rng.range(0, 5), rng.range(0, 6)],
     "LW.next" => vec![t.y, t.m, rng.range(0, 4), rng.range(0, 6), rng.range(-6, 6)],
     "LD.new" => vec![t.y, t.m, t.d],
-    "LD.get" => vec![t.y, t.m, t.d, rng.below(LD_GETTERS as u64) as i64],
+    "LD.get" => {
+      if rng.chance(1, 8) {
+        // the festival getter on a festival date, sometimes in the leap twin of that month
+        let e = *rng.pick(FESTIVAL_DATES);
+        vec![t.y, if t.m < 0 { -e.0 } else { e.0 }, e.1, 6]
+      } else {
+        vec![t.y, t.m, t.d, rng.below(LD_GETTERS as u64) as i64]
+      }
+    }
     "LD.next" | "LD.step" => vec![t.y, t.m, t.d, small_n(rng)],
     "LD.hour" => vec![t.y, t.m, t.d, rng.range(0, 12)],
     "LH.new" => vec![t.y, t.m, t.d, t.h, t.mi, t.s],
@@ -364,9 +372,10 @@ pub fn args_for(rng: &mut Rng, kind: usize, t: Tup, other: Tup) -> Vec<i64> {
     "SCM.first" | "SCM.days" => vec![t.y, rng.range(-2, 14)],
     "LF.idx" => vec![t.y, rng.range(0, 13)],
     "LF.ymd" => {
-      if rng.chance(1, 2) {
-        let e = *rng.pick(&[(1i64, 1i64), (1, 15), (2, 2), (3, 3), (5, 5), (7, 7), (7, 15), (8, 15), (9, 9), (12, 8), (12, 29), (12, 30)]);
-        vec![t.y, e.0, e.1]
+      if rng.chance(2, 3) {
+        let e = *rng.pick(FESTIVAL_DATES);
+        // the leap twin of a festival month as well (refused unless that year has this leap month)
+        vec![t.y, if t.m < 0 || rng.chance(1, 6) { -e.0 } else { e.0 }, e.1]
       } else {
         vec![t.y, t.m, t.d]
       }
@@ -395,6 +404,8 @@ pub fn args_for(rng: &mut Rng, kind: usize, t: Tup, other: Tup) -> Vec<i64> {
     other => panic!("args_for: unknown kind {}", other),
   }
 }
+
+const FESTIVAL_DATES: &[(i64, i64)] = &[(1, 1), (1, 15), (2, 2), (3, 3), (5, 5), (7, 7), (7, 15), (8, 15), (9, 9), (12, 8), (12, 29), (12, 30)];
 
 pub fn draw_swarm(rng: &mut Rng, leap: &Leap, concurrency_bias: u64) -> Swarm {
   let threads = if rng.below(100) < concurrency_bias { *rng.pick(&[2usize, 2, 3, 3, 4, 4, 8, 16]) } else { *rng.pick(&[1usize, 1, 1, 2, 2, 3]) };
@@ -541,7 +552,19 @@ pub fn gen_pool(seed: u64, n: usize, leap: &Leap) -> Vec<Query> {
     base.push(t);
     let other = gen_tuple(&mut rng, 5, leap, false);
     let k = if rng.chance(1, 3) { K_LM_FROM_YM } else { pick_kind(&mut rng, &sw) };
-    pool.push(Query::new(k, args_for(&mut rng, k, t, other)));
+    let q = Query::new(k, args_for(&mut rng, k, t, other));
+    // colliding partners of the same kind: every worker evaluates both, in its own order, so a
+    // first-writer-wins memo hidden anywhere in the library answers differently across processes
+    if rng.chance(1, 2) && pool.len() + 1 < n {
+      pool.push(sibling(&mut rng, &q));
+    }
+    if rng.chance(1, 4) && pool.len() + 1 < n && KINDS[k].arity >= 2 {
+      // same arguments in another year (a memo keyed without the year)
+      let mut a = q.args.clone();
+      a[0] = year_in_era(&mut rng, 5);
+      pool.push(Query::new(k, a));
+    }
+    pool.push(q);
   }
   pool
 }
@@ -672,5 +695,9 @@ pub fn gen_run(rng: &mut Rng, sw: &Swarm, pool: &[Query], leap: &Leap, reset: bo
     threads[t].push(Op::Q { q, stop: false });
     emitted += 1;
   }
-  RunScript { threads, policy: sw.policy.clone(), sched_seed: rng.next_u64(), hash_seed: rng.next_u64() | 1, reset, fault_free: !any_fault }
+  let sched_seed = rng.next_u64();
+  let hash_seed = rng.next_u64() | 1;
+  // allocation yield points: off for sequential histories, else every n-th library allocation
+  let alloc_period = if sw.threads == 1 || matches!(sw.policy, Policy::Seq) { 0 } else { *rng.pick(&[0u32, 0, 997, 211, 53, 17]) };
+  RunScript { threads, policy: sw.policy.clone(), sched_seed, hash_seed, reset, fault_free: !any_fault, alloc_period }
 }
